@@ -34,7 +34,7 @@ R(ev)   == IF Tbl(ev) = "symtab" THEN ev.symtab ELSE ev.dynsym
 C(ev)   == Ctx(ev.etype, IsKernelSections(ev.sections), ev.mode = "kernel")
 NoFnSize(rec) == IF rec.sect = "fn" THEN [rec EXCEPT !.size = 0] ELSE rec      \* abidw does not write the size of function symbols
 NoVer(rec) == [rec EXCEPT !.version = "", !.isDefault = FALSE]
-Classes(cs) == {ToSet(cs[i]) : i \in 1..Len(cs)}
+Classes(cs) == Big({ToSet(cs[i]) : i \in 1..Len(cs)})     \* a class whose members all have one id says nothing
 
 (* A binary without debug info whose ABI is empty: abidw declines to write an empty corpus and exits 1 (status      *)
 (* "no symbols found").  Nothing was to be recorded, so this is not a deviation from C18/C28.                       *)
